@@ -261,11 +261,15 @@ def rule_gate_only_constructor(ctx, crate, rule="R-GATE-ONLY-CONSTRUCTOR"):
     for variant in ("Term", "TermLike"):
         for (cb, i, j, s) in K.constructions(crate, K.DRAWABLE, variant):
             n += 1
-            if cb.name != b.name:
-                ctx.bad(rule, "construct:" + variant, cb.name, "%s:%d" % (cb.file, s.get("line", 0)),
-                        "Drawable::%s constructed outside ProgressDrawTarget::drawable (bypasses the limiter and the visibility test)" % variant, cfg)
-                continue
             reach_wo = b.reach([0], avoid_edges=fe + ae)
+            if cb.name != b.name:
+                # a helper extracted from drawable(): every caller must be drawable() at a gated site
+                callers = crate.callers().get(cb.name, [])
+                ok = bool(callers) and all(c.body.name == b.name and c.bb not in reach_wo for c in callers)
+                ctx.check(ok, rule, "construct:" + variant, cb.name, "%s:%d" % (cb.file, s.get("line", 0)),
+                          "Drawable::%s is built by a helper called only from gated sites of drawable()" % variant,
+                          "Drawable::%s constructed outside ProgressDrawTarget::drawable (bypasses the limiter and the visibility test)" % variant, cfg)
+                continue
             # limiter may legitimately be absent (TermLike without hz): `map_or(true, ..)` is an allow edge
             ctx.check(i not in reach_wo, rule, "construct:" + variant, b.name, "%s:%d" % (b.file, s.get("line", 0)),
                       "every path to the construction takes a force_draw-true edge or a limiter-allowed edge (%d+%d gate edges)" % (len(fe), len(ae)),
